@@ -92,6 +92,8 @@ def world (p : Pipeline (ExceptT String m) A V M) (isSeries : V → Bool) : Worl
     | _ => throw "TypeError"
   format _ := throw "TypeError"
   concat _ := throw "TypeError"
+  dict _ := throw "TypeError"
+  whileLoop _ _ _ := throw "Unsupported"
   other _ := throw "Unsupported"
   throw cls := throw cls
   rethrow := throw "reraise"
@@ -212,6 +214,8 @@ def cworld (mu : A → Option V → ExceptT String m V) : World (StateT (List V)
     | _ => throw "TypeError"
   format _ := throw "TypeError"
   concat _ := throw "TypeError"
+  dict _ := throw "TypeError"
+  whileLoop _ _ _ := throw "Unsupported"
   other _ := throw "Unsupported"
   throw cls := throw cls
   rethrow := throw "reraise"
